@@ -490,6 +490,7 @@ func main() {
 	run.Def(M, "gen", checkGenerated)
 	run.Def(M, "f32sweep", sweep32)
 	defAlt()
+	run.Def(M, "siblings", checkSiblings)
 	M.Gen = generate
 	debug.SetGCPercent(400)
 	runtime.GOMAXPROCS(2)
@@ -510,6 +511,7 @@ func generate(w *run.W) {
 	}
 	// (2) alternative representations
 	genAlt(w, mine)
+	genSiblings(w, mine)
 	// (3) float32 sweep
 	if w.Thorough() {
 		for blk := 0; blk < 256; blk++ {
